@@ -190,9 +190,11 @@ def _run_group(R, pid, g, tier, seed, scratch, infos):
         ob['checks'] = pd.get('total_properties', len(r.get('checks', [])))
         failed = [c for c in r.get('checks', []) if c.get('status') not in ('Success', 'Unreachable', 'Satisfied',
                                                                               'Covered')]
-        unsupported = [c for c in failed if 'not currently supported by Kani' in c.get('description', '')
+        unsupported = [c for c in failed if c.get('status') == 'Failure' and (
+                       'not currently supported by Kani' in c.get('description', '')
                        or c.get('category') == 'unsupported_construct'
-                       or 'is not supported' in c.get('description', '')]
+                       or 'is not supported' in c.get('description', '')
+                       or 'Kani does not support' in c.get('description', ''))]
         real_fail = [c for c in failed if c.get('status') == 'Failure' and 'unwinding assertion' not in c.get('description', '')]
         if unsupported:
             # a construct Kani cannot execute was reachable: everything after it is meaningless -> undecided
@@ -207,6 +209,12 @@ def _run_group(R, pid, g, tier, seed, scratch, infos):
                 R.undecided.append(f"kani: {h['obligation']}: zero checks generated")
             else:
                 ob['ok'] = True
+            continue
+        real_fail = [c for c in real_fail if c not in unsupported]
+        if unwind_fail and real_fail:
+            # beyond an insufficient unwinding bound CBMC's other verdicts are not meaningful
+            R.undecided.append(f"kani: {h['obligation']}: unwinding bound too small "
+                               f"({[c.get('description') for c in unwind_fail[:3]]})")
             continue
         if real_fail:
             fc = [f"{c.get('description')} @ {c.get('location', {}).get('file')}:{c.get('location', {}).get('line')} in {c.get('function')}"
